@@ -790,6 +790,142 @@ def gen_join_names_case(rnd):
 
 
 
+# ---------------------------------------------------------------- round 5 (f): attribute selection of the object query
+A_ORD = {'Host': ['name', '__name', 'display_name', 'address', 'vars', 'zone', 'state', 'last_check_result', 'templates', 'type', 'active',
+                  'groups', 'check_interval', 'notes', 'original_attributes', 'package', 'version', 'last_state_up', 'ha_mode'],
+         'Service': ['name', '__name', 'display_name', 'host_name', 'vars', 'zone', 'state', 'last_check_result', 'templates', 'type', 'active',
+                     'groups', 'check_interval', 'notes', 'original_attributes', 'package', 'version', 'last_state_ok', 'ha_mode']}
+A_NAV = ['check_command', 'check_period', 'event_command', 'command_endpoint']       # [config, navigation]: the NAME is serialised
+A_NAVOBJ = ['host']                                                                 # [no_storage, navigation] Host::Ptr (Service only)
+A_HIDDEN = ['state_raw', 'last_state_raw', 'flapping_buffer', 'flapping_index', 'extensions', 'start_called', 'icingadb_identifier',
+            'pending_executions', 'suppressed_notifications', 'state_loaded', 'last_check_started']
+A_UNKNOWN = ['bogus', 'Host', 'HOST', 'host.name', 'Name', 'vars.os', 'service', 'hosts', 'check_command.name', 'attrs', '*']
+J_FIELDS = {'host': ['name', 'address', 'vars', 'display_name', 'state', 'check_command', 'zone', 'type', '__name'],
+            'check_command': ['name', 'command', 'arguments', 'timeout', 'vars', '__name', 'type'],
+            'check_period': ['name', 'ranges', 'display_name', 'is_inside', 'segments', '__name'],
+            'event_command': ['name', 'command', 'env', '__name'],
+            'command_endpoint': ['name', 'host', 'port', 'connected', 'log_duration', '__name']}
+J_BAD = ['bogus', 'host', 'service', 'password', '', 'Name', 'vars.os', 'address6x']
+
+
+def gen_attr_list(rnd, t):
+    k = rnd.random()
+    if k < 0.12:
+        return None                                     # no attrs: everything visible
+    if k < 0.16:
+        return []
+    out = []
+    for i in range(rnd.choice((1, 1, 2, 2, 3, 4))):
+        m = rnd.random()
+        if m < 0.4:
+            out.append(rnd.choice(A_ORD[t]))
+        elif m < 0.55:
+            out.append(rnd.choice(A_NAV))
+        elif m < 0.75:
+            out.append(rnd.choice(A_NAVOBJ))            # on hosts: an unknown field
+        elif m < 0.9:
+            out.append(rnd.choice(A_HIDDEN))
+        else:
+            out.append(rnd.choice(A_UNKNOWN + A_ORD['Host' if t == 'Service' else 'Service'][:4]))
+    return out
+
+
+def gen_join_list(rnd, t):
+    k = rnd.random()
+    if k < 0.25:
+        return None
+    fields = JOINFIELDS if t == 'Service' else JOINFIELDS[:4]
+    out = []
+    for i in range(rnd.choice((1, 1, 2, 2, 3))):
+        pfx = rnd.choice(fields + (['host'] if t == 'Service' else []) + ['host'] * (rnd.random() < 0.1))
+        m = rnd.random()
+        if m < 0.3:
+            out.append(pfx)                             # the whole joined object
+        elif m < 0.75:
+            out.append(pfx + '.' + rnd.choice(J_FIELDS[pfx]))
+        elif m < 0.85:
+            out.append(pfx + '.' + rnd.choice(A_HIDDEN[:6] + ['host']))
+        elif m < 0.93:
+            out.append(pfx + '.' + rnd.choice(J_BAD))
+        else:
+            out.append(rnd.choice(['service.host', 'service', 'vars.os', 'bogus.name', 'zone', 'host.host.name', 'Host.name']))
+    return out
+
+
+def gen_attrs_case(rnd):
+    """family attrs: GET /v1/objects/<type> with every shape of attrs / joins / all_joins / meta, for users whose permission for the
+    joined types differs (none, plain, filtered): which KEYS are serialised, which joined objects, whether any value embeds an object"""
+    FREE_SHARE[0] = 0.0
+    names = rnd.sample(HOSTS[:6] + SHARED, rnd.choice((2, 3, 3)))
+    lines, svcs, pairs = [], [], []
+
+    def refs(dense):
+        r = ''
+        for sc_, (key, pool) in NAV.items():
+            if rnd.random() < dense:
+                r += ' %s=%s' % (key, hx(rnd.choice(SHARED + pool)))
+        return r
+    for h in names:
+        vs = ' vars=%s:%s' % (hx('os'), hx(rnd.choice(VVALS))) if rnd.random() < 0.7 else ''
+        lines.append('pm_host name=%s%s%s' % (hx(h), vs, refs(0.5)))
+    for h in names:
+        for sv in rnd.sample(SVCS[:3], rnd.choice((1, 1, 2))):
+            lines.append('pm_svc host=%s name=%s%s' % (hx(h), hx(sv), refs(0.5)))
+            svcs.append(sv); pairs.append((h, sv))
+    es = []
+    k = rnd.random()
+    sp = mangle_case(rnd, rnd.choice(['objects/query/Service', 'objects/query/S*', 'objects/query/*ice']))
+    es.append(hx(sp) if k < 0.6 else hx(sp) + '@' + ','.join(rnd.choice([['nh:' + hx(names[0])], ['nh:' + hx(names[0]), 'not'], ['t']])))
+    k = rnd.random()
+    hp = mangle_case(rnd, rnd.choice(['objects/query/Host', 'objects/query/H*', 'objects/*/Host']))
+    if k < 0.3:
+        es.append(hx(hp))
+    elif k < 0.75:
+        es.append(hx(hp) + '@' + ','.join(rnd.choice([['nh:' + hx(names[0])], ['nh:' + hx(names[-1]), 'not'], ['vh:%s:%s' % (hx('os'), hx(rnd.choice(VVALS)))], ['f']])))
+    for jt in ['CheckCommand', 'TimePeriod', 'EventCommand', 'Endpoint']:
+        k = rnd.random()
+        if k < 0.45:
+            es.append(hx('objects/query/' + jt))
+        elif k < 0.7:
+            es.append(hx('objects/query/' + jt) + '@' + ','.join(rnd.choice([['no:' + hx(rnd.choice(SHARED))], ['mo:' + hx('pm?')], ['no:' + hx('pmdummy'), 'not']])))
+    rnd.shuffle(es)
+    lines.append('pm_user perms=' + ';'.join(es))
+    lines.append('pm_load')
+    lines.append('pm_perm perm=' + hx('objects/query/Host'))
+    for i in range(rnd.randint(6, 10)):
+        t = rnd.choice(['Service', 'Service', 'Service', 'Host'])
+        low = t.lower()
+        parts = ['pm_aq ptype=%ss' % low]
+        k = rnd.random()
+        if k < 0.2:
+            o = rnd.choice(names) if t == 'Host' else '%s!%s' % rnd.choice(pairs)
+            parts.append('name=%s' % hx(o))
+        elif k < 0.35:
+            order = rnd.sample(names, rnd.randint(1, len(names))) if t == 'Host' else rnd.sample(pairs, rnd.randint(1, len(pairs)))
+            parts.append('%ss=%s' % (low, ','.join(hx(o if t == 'Host' else '%s!%s' % o) for o in order)))
+        elif k < 0.5:
+            parts.append('filter=' + ','.join(rnd.choice([['mo:' + hx('*')], ['nh:' + hx(rnd.choice(names))], ['t'], ['nh:' + hx('nope')]])))
+        al = gen_attr_list(rnd, t)
+        if al is not None:
+            parts.append('attrs=' + (','.join(hx(x) for x in al) or '-'))
+        jl = gen_join_list(rnd, t)
+        if jl is not None:
+            jl = [x for x in jl if x]
+            parts.append('aj=' + (','.join(hx(x) for x in jl if not x.endswith('.')) or '-'))
+        if rnd.random() < 0.2:
+            parts.append('alljoins=1')
+        k = rnd.random()
+        if k < 0.3:
+            parts.append('meta=' + ','.join(hx(x) for x in rnd.choice([['used_by'], ['location'], ['used_by', 'location'], ['bogus'], ['location', 'Used_by']])))
+        lines.append(' '.join(parts))
+    return {'lines': lines, 'tags': {'family': 'attrs'}}
+
+
+def gen_field_tables_case():
+    return {'lines': ['pm_fields type=%s' % t for t in ('Host', 'Service', 'CheckCommand', 'EventCommand', 'TimePeriod', 'Endpoint')],
+            'tags': {'family': 'field-tables'}}
+
+
 def generate(seed, tier):
     rnd = random.Random(seed)
     cases = gen_match_cases(rnd, tier)
@@ -806,11 +942,14 @@ def generate(seed, tier):
         cases.append(gen_env_case(rnd))
     for i in range(n // 6):
         cases.append(gen_join_names_case(rnd))
+    cases.append(gen_field_tables_case())
+    for i in range(n // 4):
+        cases.append(gen_attrs_case(rnd))
     return cases
 
 
 def nontrivial(case, impl_lines):
-    if case['lines'] and case['lines'][0].startswith('pm_match'):
+    if case['lines'] and case['lines'][0].startswith(('pm_match', 'pm_fields')):
         return True
     return any((' objs=' in l and ' objs=-' not in l) or 'res=err' in l or 'code=404' in l for l in impl_lines)
 
@@ -824,6 +963,10 @@ def classify(case, detail, impl_lines):
         return 'permission-matching'
     if 'rejected-first' in detail or 'request-served' in detail:
         return 'reject-first'
+    if 'embedded-object' in detail:
+        return 'embedded-object'
+    if 'hidden-field' in detail:
+        return 'hidden-field'
     if 'joined' in detail:
         return 'join-unpermitted'
     if 'unpermitted' in detail or 'forbidden' in detail:
